@@ -310,6 +310,7 @@ pub struct Outcome {
     /// refusable offers (RowProg::offers) the library accepted / refused
     pub offers_accepted: Vec<String>,
     pub offers_refused: usize,
+    pub failed_after_refused_offer: bool,
     pub leftover_actions: usize,
     pub out: Vec<u8>,
     pub flushed: usize,
@@ -457,6 +458,7 @@ fn run_inner(c: &Conversation, tls: Option<std::sync::Arc<rustls::ServerConfig>>
         mismatches: std::mem::take(&mut s.mismatches),
         offers_accepted: std::mem::take(&mut s.offers_accepted),
         offers_refused: s.offers_refused,
+        failed_after_refused_offer: s.failed_after_refused_offer,
         leftover_actions: s.actions.len(),
         out: std::mem::take(&mut t.out),
         flushed: t.flushed,
